@@ -34,6 +34,32 @@ MUT_VARIANT = {
     'eigen': [('eigenvalue_shapes', 'implies(l._da is not None, len(awaited(l._da).shape) == 1)')],
 }
 
+# provenance of the second-order data (ghost fields written by compute_a_inv / compute_g_inv)
+def refreshed(lyr, name, damp, guard=True):      # noqa: E302
+    out = []
+    for X, F in (('a', 'A'), ('g', 'G')):
+        body = f'{lyr}.gh_{X}_from is awaited({lyr}._{X}_factor) and same({lyr}.gh_{X}_damping, {damp})'
+        out.append(f"implies(wa_inv_worker(self._assignment, {name}, '{F}') == my_rank(), {body})" if guard else f'({body})')
+    return ' and '.join(out)
+
+
+def provenance_kept(lyr):
+    return ' and '.join(f'{lyr}.gh_{X}_from is old({lyr}.gh_{X}_from) and same({lyr}.gh_{X}_damping, old({lyr}.gh_{X}_damping))' for X in 'ag')
+
+
+SO_FIELDS = {'inverse': ['_a_inv', '_g_inv'], 'eigen': ['_qa', '_qg', '_da', '_dg', '_dgda']}
+
+
+def so_identity_kept(lyr, variant):
+    return ' and '.join(f'awaited({lyr}.{f}) is old(awaited({lyr}.{f}))' for f in SO_FIELDS[variant])
+
+
+def factors_identity_kept(lyr):
+    return f'awaited({lyr}._a_factor) is old(awaited({lyr}._a_factor)) and awaited({lyr}._g_factor) is old(awaited({lyr}._g_factor))'
+
+
+INV_STEP = 'old(self._steps) % old(self.inv_update_steps) == 0'
+FAC_STEP = '(not old(self._update_factors_in_hook) and old(self._steps) % old(self.factor_update_steps) == 0)'
 SELF_OK = [('assignment_present', 'self._assignment is not None and self._tdc is not None'),
            ('hyperparameters_are_numbers',
             f'{NUMBER("self.damping")} and {NUMBER("self.factor_decay")} and {NUMBER("self.lr")} and '
@@ -53,11 +79,15 @@ for variant, cls in (('inverse', 'KFACInverseLayer'), ('eigen', 'KFACEigenLayer'
     INV3 = [(lbl, over_layers(body) if lbl != 'preconditioned_gradient_shape' else
              over_layers('implies(l._grad is not None, len(awaited(l._grad).shape) == 2)'))
             for lbl, body in MUT_COMMON + MUT_VARIANT[variant]] + [('own_state_stable', STABLE)]
+    KEPT_SO = ('second_order_identity_kept_off_schedule', f'implies(not ({INV_STEP}), all(' + so_identity_kept(L_, variant) + ' for m in self._layers))')
+    REFR = ('refreshed_on_schedule', f'implies({INV_STEP}, all(' + refreshed(L_, 'self._layers[m][0]', 'D0') + ' for m in self._layers))')
+    KEPT_F = ('factors_kept_off_schedule', f'implies(not {FAC_STEP}, all(' + factors_identity_kept(L_) + ' for m in self._layers))')
     contract(
         f'{P}.step#{variant}', props=['C05', 'C03', 'C10', 'C13', 'C07'],
         class_map={'KFACBaseLayer': cls},
         requires=SELF_OK + [('layers_configured', CONFIG_OK)] + MUTS,
         may_raise=['RuntimeError', 'AssertionError', 'NonSquareTensorError'],
+        lets={'D0': 'old(self.damping)'},       # the damping evaluated at the step count on entry
         ensures=[
             ('step_count_grows_by_one', 'self._steps == old(self._steps) + 1'),
             ('accumulation_counters_reset', 'len(self._mini_steps) == 0'),
@@ -67,14 +97,27 @@ for variant, cls in (('inverse', 'KFACInverseLayer'), ('eigen', 'KFACEigenLayer'
              'and same(self._kl_clip, old(self._kl_clip)) and same(self._lr, old(self._lr)) '
              'and same(self._factor_update_steps, old(self._factor_update_steps)) and same(self._inv_update_steps, old(self._inv_update_steps))'),
             ('preconditioned_gradients_consumed', 'all(self._layers[m][1]._grad is None for m in self._layers)'),
+            # C05: second-order data is recomputed exactly on multiples of the inverse-update interval, from the
+            # factors held at that moment and with the damping evaluated at the current step
+            ('second_order_data_refreshed_on_schedule[ghost]',
+             f'implies({INV_STEP}, all(' + refreshed(L_, 'self._layers[m][0]', 'D0') + ' for m in self._layers))'),
+            ('second_order_data_kept_off_schedule[ghost]',
+             f'implies(not ({INV_STEP}), all(' + provenance_kept(L_) + ' and ' + so_identity_kept(L_, variant) + ' for m in self._layers))'),
+            ('factors_kept_off_schedule', f'implies(not {FAC_STEP}, all(' + factors_identity_kept(L_) + ' for m in self._layers))'),
+            # every bucketed reduction started in the hooks or in this step has been issued (C03: no rank waits forever)
+            ('no_reduction_left_pending', 'nothing_pending(self._tdc)'),
         ],
         loops={f'iter:reversed(list(self._layers.values()))#{i}': dict(index='i', invariants=(INV if i < 3 else INV3) + extra) for i, extra in enumerate([
-            [], [], [],
-            [('consumed_so_far', 'all(flayer(self, m)._grad is None for m in range(len(self._layers) - i, len(self._layers)))')],
+            [],
+            [('refreshed_so_far', 'all(' + refreshed('flayer(self, m)', 'fname(self, m)', 'D0') +
+              ' for m in range(len(self._layers) - i, len(self._layers)))'), KEPT_F],
+            [KEPT_SO, KEPT_F, REFR],
+            [REFR, ('consumed_so_far', 'all(flayer(self, m)._grad is None for m in range(len(self._layers) - i, len(self._layers)))'), KEPT_SO, KEPT_F],
         ])},
         modifies=['self._steps', 'self._mini_steps', '*._a_factor', '*._g_factor', '*._a_batch', '*._g_batch', '*._grad',
                   '*._a_inv', '*._g_inv', '*._qa', '*._qg', '*._da', '*._dg', '*._dgda', '*.grad', '*.val', '*.resolved',
-                  '*._allreduce_buckets', '*._tensors', '*._futures', '*._size', '*._communicated', 'ghost:trace', 'ghost:next_sid'],
+                  '*._allreduce_buckets', '*._tensors', '*._futures', '*._size', '*._communicated', 'ghost:trace', 'ghost:next_sid',
+                  '*.gh_a_from', '*.gh_g_from', '*.gh_a_damping', '*.gh_g_damping'],
     )
 
 
@@ -146,7 +189,7 @@ for variant, cls in (('inverse', 'KFACInverseLayer'), ('eigen', 'KFACEigenLayer'
     SHAPES = [(lbl, over_layers(body)) for lbl, body in
               [('factor_shapes', 'implies(l._a_factor is not None, is_square(awaited(l._a_factor).shape)) and implies(l._g_factor is not None, is_square(awaited(l._g_factor).shape))')]
               + MUT_VARIANT[variant]]
-    LINV = [('scalars_restored', RESTORED)] + SHAPES
+    LINV = SHAPES
     contract(
         f'{P}.load_state_dict#{variant}', props=['C09', 'C03', 'C05'], class_map={'KFACBaseLayer': cls},
         params={'state_dict': STATE, 'compute_inverses': KBool},
@@ -165,10 +208,19 @@ for variant, cls in (('inverse', 'KFACInverseLayer'), ('eigen', 'KFACEigenLayer'
         ensures=[
             ('step_count_restored', "self._steps == state_dict['steps']"),
         ] + [(f'{h}_restored', f"implies('{h}' in state_dict, same(self._{h}, state_dict['{h}'])) and "
-                               f"implies(not ('{h}' in state_dict), same(self._{h}, old(self._{h})))") for h in HYP],
+                               f"implies(not ('{h}' in state_dict), same(self._{h}, old(self._{h})))") for h in HYP] + [
+            # C09: the second-order data is recomputed from the restored factors, with the damping evaluated
+            # at the RESTORED step count (self.damping below is read in the post-state)
+            ('second_order_data_recomputed_from_restored_state[ghost]',
+             "implies(compute_inverses and 'layers' in state_dict, all(implies(" + L_ + "._a_factor is not None and " + L_ + "._g_factor is not None, "
+             + refreshed(L_, 'self._layers[m][0]', 'self.damping', guard=False) + ") for m in self._layers))"),
+        ],
         loops={"iter:state_dict['layers'].items()": dict(index='i', invariants=LINV),
                'iter:self._layers.values()#0': dict(index='j', invariants=LINV),
-               'iter:self._layers.values()#1': dict(index='i', invariants=LINV)},
+               'iter:self._layers.values()#1': dict(index='i', invariants=LINV + [
+                   ('recomputed_so_far', 'all(implies(flayer(self, m)._a_factor is not None and flayer(self, m)._g_factor is not None, '
+                                         + refreshed('flayer(self, m)', 'fname(self, m)', 'self.damping', guard=False) + ') for m in range(i))')])},
         modifies=['self._steps'] + [f'self._{h}' for h in HYP] + ['*._a_factor', '*._g_factor', '*._a_inv', '*._g_inv', '*._qa', '*._qg', '*._da',
-                                                                   '*._dg', '*._dgda', '*.val', '*.resolved', 'ghost:trace', 'ghost:next_sid'],
+                                                                   '*._dg', '*._dgda', '*.val', '*.resolved', 'ghost:trace', 'ghost:next_sid',
+                                                                   '*.gh_a_from', '*.gh_g_from', '*.gh_a_damping', '*.gh_g_damping'],
     )
